@@ -245,22 +245,38 @@ def shadow_after_use(node, outer):
 
 
 def declares_and_reads_outer(node, outer):
-    """The body declares a local whose name is also an outer variable (possibly in a branch that is
-    not taken, or after a use): which variable a read of that name means is then decided at run time."""
+    """The body declares, inside a conditional construct (if branch, try body, right operand of
+    and/or/coalesce), a local whose name is also an outer variable that the body reads: whether a
+    read of that name means the local or the outer variable is then decided at run time."""
     decls, reads = set(), set()
 
-    def walk(n):
-        if isinstance(n, tuple):
-            if n and n[0] == "decl" and n[1] in outer:
+    def walk(n, cond):
+        if isinstance(n, tuple) and n and isinstance(n[0], str):
+            t = n[0]
+            if t == "decl" and n[1] in outer and cond:
                 decls.add(n[1])
-            if n and n[0] == "var" and n[1] in outer:
+            if t == "var" and n[1] in outer:
                 reads.add(n[1])
+            if t == "if" and len(n) == 4:
+                walk(n[1], cond)
+                walk(n[2], True)
+                if n[3] is not None:
+                    walk(n[3], True)
+                return
+            if t in ("and", "or", "coalesce"):
+                walk(n[1], cond)
+                walk(n[2], True)
+                return
+            if t == "try":
+                walk(n[1], True)
+                walk(n[3], True)
+                return
+            for x in n[1:]:
+                walk(x, cond)
+        elif isinstance(n, (list, tuple)):
             for x in n:
-                walk(x)
-        elif isinstance(n, list):
-            for x in n:
-                walk(x)
-    walk(node)
+                walk(x, cond)
+    walk(node, False)
     return bool(decls & reads)
 
 
@@ -302,7 +318,7 @@ def gen_lambda(r, size):
     except NotClosed as e:
         static = str(e)
     forlet = has_for_let(ast)
-    if shadow_after_use(ast, outer) or declares_and_reads_outer(ast, outer):
+    if declares_and_reads_outer(ast, outer):
         forlet = "shadow" if not forlet else "shadow+forlet"
     # an unparenthesised chain with user operators (precedence resolved at freeze time)
     if r.random() < 0.5:
@@ -431,7 +447,7 @@ def shard(ctx, si, n):
                     ok = False
                     break
                 if f1 != f0:
-                    pattern = "local-declaration-shadows-outer-name-it-also-reads" if forlet and "shadow" in str(forlet) else diff_kind(f0, f1)
+                    pattern = "conditional-local-declaration-shadows-outer-name" if forlet and "shadow" in str(forlet) else diff_kind(f0, f1)
                     sh.violation("C17|frozen-changed-after-reassign|%s" % pattern,
                                  "frozen function changed after reassigning outer names (%s): before %s, after %s; lambda %s" % ("; ".join(re_stmts), str(f0)[:120], str(f1)[:120], lam[:300]), replay)
                     ok = False
